@@ -299,6 +299,160 @@ F_C10_inv(cfg, S) ==
               => c.st # NONE /\ c.se = c.ss + c.st)
 
 ----------------------------------------------------------------------------
+(* C04 server exclusivity *)
+
+FiniteServers(cfg, S, n) == cfg.nodes[n].kind \in {"std", "sched"} /\ S.nodes[n].c < INF
+
+F_C04_inv(cfg, S) ==
+    Chk("C04.attachment-is-a-bijection", \A n \in 1..NN(S) : FiniteServers(cfg, S, n) =>
+          LET sv == S.nodes[n].srv
+          IN /\ \A a \in DOMAIN sv : (sv[a].cust # 0) <=> sv[a].busy
+             /\ \A a \in DOMAIN sv : sv[a].cust # 0 =>
+                    IsLive(S, sv[a].cust) /\ CuOf(S, sv[a].cust).loc = n /\ CuOf(S, sv[a].cust).srv = sv[a].id
+             /\ \A a, b \in DOMAIN sv : a # b => sv[a].id # sv[b].id /\ (sv[a].cust # 0 => sv[a].cust # sv[b].cust)
+             /\ \A j \in DOMAIN S.cu : S.cu[j].loc = n /\ S.cu[j].srv > 0 =>
+                    \E a \in DOMAIN sv : sv[a].id = S.cu[j].srv /\ sv[a].cust = S.cu[j].id)
+    \cup Chk("C04.at-most-c-in-service", \A n \in 1..NN(S) : FiniteServers(cfg, S, n) =>
+          LET sv == S.nodes[n].srv
+              onduty == {a \in DOMAIN sv : ~sv[a].off}
+              served == {j \in DOMAIN S.cu : S.cu[j].loc = n /\ S.cu[j].srv > 0}
+          IN Cardinality(onduty) = S.nodes[n].c /\ Cardinality(served) <= Len(sv)
+             /\ (cfg.nodes[n].kind = "std" => Len(sv) = cfg.nodes[n].c))
+    \cup Chk("C04.counter-of-customers-in-service", \A n \in 1..NN(S) :
+          FiniteServers(cfg, S, n) /\ ~HasReroute(cfg) =>
+             S.nodes[n].insvc = Cardinality({j \in DOMAIN S.cu : S.cu[j].loc = n /\ S.cu[j].srv > 0}))
+
+F_C04_step(cfg, pre, post) ==
+    Chk("C04.server-stays-until-departure", \A n \in 1..NN(pre) : FiniteServers(cfg, pre, n) =>
+          \A a \in DOMAIN pre.nodes[n].srv :
+             LET s == pre.nodes[n].srv[a]
+                 taken == \E b \in DOMAIN post.steps : post.steps[b].i = s.cust /\ post.steps[b].n = n
+                                                        /\ post.steps[b].k \in {"release", "preempt", "interrupt"}
+             IN s.cust # 0 /\ ~taken /\ IsLive(post, s.cust) =>
+                   CuOf(post, s.cust).srv = s.id /\ CuOf(post, s.cust).loc = n
+                   /\ \E b \in DOMAIN post.nodes[n].srv : post.nodes[n].srv[b].id = s.id
+                                                           /\ post.nodes[n].srv[b].cust = s.cust)
+    \cup Chk("C04.detach-only-at-departure-or-preemption", \A a \in IdxOf(post, "detach") :
+          LET s == post.steps[a]
+          IN \E b \in 1..(a-1) : post.steps[b].i = s.i /\ post.steps[b].n = s.n
+                                  /\ post.steps[b].k \in {"release", "preempt"})
+    \cup Chk("C04.attach-only-free-server", \A a \in IdxOf(post, "attach") :
+          \* the server is free at that moment: free before the event and not attached since, or detached since
+          LET s == post.steps[a]
+              mine == {b \in 1..(a-1) : post.steps[b].n = s.n /\ post.steps[b].s = s.s
+                                         /\ post.steps[b].k \in {"attach", "detach"}}
+              wasFree == \A b \in DOMAIN pre.nodes[s.n].srv :
+                            pre.nodes[s.n].srv[b].id = s.s => pre.nodes[s.n].srv[b].cust = 0
+          IN s.n \in 1..NN(pre) /\
+             IF mine = {} THEN wasFree ELSE post.steps[SetMax(mine)].k = "detach")
+    \cup Chk("C04.record-names-the-attached-server", \A a \in DOMAIN post.recs :
+          LET r == post.recs[a]
+          IN r.type \in {"service", "interrupted service"} /\ r.sid > 0 /\ r.n \in 1..NN(pre)
+                /\ IsLive(pre, r.id) /\ CuOf(pre, r.id).loc = r.n /\ CuOf(pre, r.id).srv > 0
+             => r.sid = CuOf(pre, r.id).srv /\ r.ss = CuOf(pre, r.id).ss)
+
+----------------------------------------------------------------------------
+(* C12 server schedules and slotted services follow the declared timetable *)
+
+\* closed form, independent of the generator transcription in Ciw.tla
+Prescribed(sc, t) ==
+    IF t < sc.off THEN 0
+    ELSE LET m == Len(sc.ends)
+             u == (t - sc.off) % sc.ends[m]
+             j == SetMin({a \in 1..m : u < sc.ends[a]})
+         IN sc.nums[j]
+
+SlotIndexAt(sl, t) == {a \in DOMAIN sl.slots : t - sl.off - sl.slots[a] >= 0
+                                               /\ (t - sl.off - sl.slots[a]) % sl.slots[Len(sl.slots)] = 0}
+
+F_C12_inv(cfg, S) ==
+    Chk("C12.on-duty-as-prescribed", \A n \in 1..NN(S) :
+          cfg.nodes[n].kind = "sched" /\ S.nodes[n].shd > S.now =>
+             LET sv == S.nodes[n].srv
+             IN S.nodes[n].c = Prescribed(cfg.nodes[n].sched, S.now)
+                /\ Cardinality({a \in DOMAIN sv : ~sv[a].off}) = Prescribed(cfg.nodes[n].sched, S.now))
+    \cup Chk("C12.next-change-is-the-next-boundary", \A n \in 1..NN(S) :
+          cfg.nodes[n].kind = "sched" /\ S.nodes[n].shd > S.now =>
+             LET sc == cfg.nodes[n].sched
+             IN \* no boundary strictly between now and the announced next change, and the announced date is one
+                (\A t \in (S.now + 1)..(Min2(S.nodes[n].shd, S.now + 2 * sc.ends[Len(sc.ends)]) - 1) :
+                     t < sc.off \/ ~\E a \in DOMAIN sc.ends : (t - sc.off) % sc.ends[Len(sc.ends)] = sc.ends[a] % sc.ends[Len(sc.ends)])
+                /\ (S.nodes[n].shd = sc.off \/
+                    \E a \in DOMAIN sc.ends : S.nodes[n].shd >= sc.off /\
+                        (S.nodes[n].shd - sc.off) % sc.ends[Len(sc.ends)] = sc.ends[a] % sc.ends[Len(sc.ends)]))
+    \cup Chk("C12.capacitated-preemptive-slot-size", \A n \in 1..NN(S) :
+          cfg.nodes[n].kind = "slot" /\ cfg.nodes[n].slot.cap /\ cfg.nodes[n].slot.pre # 0
+             /\ S.ev.kind = "slotted_service" /\ S.ev.node = n
+          => LET idx == SlotIndexAt(cfg.nodes[n].slot, S.now)
+             IN idx # {} /\ Cardinality({j \in DOMAIN S.cu : S.cu[j].loc = n /\ S.cu[j].ss # NONE})
+                              <= cfg.nodes[n].slot.sizes[SetMin(idx)])
+
+F_C12_step(cfg, pre, post) ==
+    LET starts == IdxOf(post, "start")
+        isShift == post.ev.kind = "shift_change"
+        n0 == post.ev.node
+    IN Chk("C12.start-needs-on-duty-server", \A a \in starts :
+             LET s == post.steps[a]
+             IN s.n \in 1..NN(post) /\ cfg.nodes[s.n].kind = "sched" =>
+                   s.s > 0 /\ \E b \in DOMAIN post.nodes[s.n].srv :
+                                 post.nodes[s.n].srv[b].id = s.s /\ ~post.nodes[s.n].srv[b].off)
+       \cup Chk("C12.shift-change-at-declared-date",
+             isShift /\ n0 \in 1..NN(pre) /\ cfg.nodes[n0].kind = "sched" =>
+                post.ev.date = pre.nodes[n0].shd
+                /\ post.nodes[n0].c = Prescribed(cfg.nodes[n0].sched, post.now))
+       \cup Chk("C12.non-preemptive-overtime",
+             \* servers busy at a non-pre-emptive shift end keep their customer and are marked off duty
+             isShift /\ n0 \in 1..NN(pre) /\ cfg.nodes[n0].kind = "sched" /\ cfg.nodes[n0].sched.pre = 0 =>
+                \A a \in DOMAIN pre.nodes[n0].srv :
+                   LET s == pre.nodes[n0].srv[a]
+                   IN s.cust # 0 =>
+                        (\E b \in DOMAIN post.nodes[n0].srv : post.nodes[n0].srv[b].id = s.id /\ post.nodes[n0].srv[b].off
+                              /\ post.nodes[n0].srv[b].cust = s.cust /\ post.nodes[n0].srv[b].send = post.now)
+                        /\ ~\E b \in IdxOf(post, "interrupt") : post.steps[b].i = s.cust)
+       \cup Chk("C12.overtime-recorded", \A a \in IdxOf(post, "kill") :
+             LET s == post.steps[a]
+                 before == Cardinality({b \in 1..a : post.steps[b].k = "kill" /\ post.steps[b].n = s.n})
+                 srvs == IF s.n \in 1..NN(pre) THEN {b \in DOMAIN pre.nodes[s.n].srv : pre.nodes[s.n].srv[b].id = s.s} ELSE {}
+             IN s.n \in 1..NN(pre) /\ cfg.nodes[s.n].kind = "sched" /\ cfg.nodes[s.n].sched.pre = 0 /\ srvs # {} =>
+                   LET sv == pre.nodes[s.n].srv[CHOOSE b \in srvs : TRUE]
+                       pos == Len(pre.nodes[s.n].ot) + before
+                   IN pos \in DOMAIN post.nodes[s.n].ot
+                      /\ post.nodes[s.n].ot[pos] = IF isShift /\ n0 = s.n THEN 0 ELSE post.now - sv.send)
+       \cup Chk("C12.preemptive-interrupts-at-shift-end",
+             isShift /\ n0 \in 1..NN(pre) /\ cfg.nodes[n0].kind = "sched" /\ cfg.nodes[n0].sched.pre # 0 =>
+                \A a \in DOMAIN pre.nodes[n0].srv :
+                   LET s == pre.nodes[n0].srv[a]
+                   IN s.cust # 0 =>
+                        (\E b \in IdxOf(post, "interrupt") : post.steps[b].i = s.cust)
+                        /\ (\E b \in DOMAIN post.recs : post.recs[b].id = s.cust
+                                /\ post.recs[b].type = "interrupted service" /\ post.recs[b].exit = pre.nodes[n0].shd))
+       \cup Chk("C12.interrupted-before-fresh", \A a \in starts :
+             \* a fresh customer starts at a scheduled node only when no interrupted customer is left waiting there
+             LET s == post.steps[a]
+                 wasIntr == (IsLive(pre, s.i) /\ CuOf(pre, s.i).intr)
+                            \/ \E b \in 1..(a-1) : post.steps[b].k = "interrupt" /\ post.steps[b].i = s.i
+             IN s.n \in 1..NN(post) /\ cfg.nodes[s.n].kind = "sched" /\ cfg.nodes[s.n].sched.pre \in {1, 2, 3} /\ ~wasIntr
+                => \* interrupted customers still waiting after the event would have had to go first
+                   post.nodes[s.n].intr = <<>>)
+       \cup Chk("C12.slotted-start-only-at-slot", \A a \in starts :
+             LET s == post.steps[a]
+             IN s.n \in 1..NN(post) /\ cfg.nodes[s.n].kind = "slot" =>
+                   post.ev.kind = "slotted_service" /\ post.ev.node = s.n
+                   /\ SlotIndexAt(cfg.nodes[s.n].slot, post.now) # {})
+       \cup Chk("C12.slot-size-respected",
+             post.ev.kind = "slotted_service" /\ n0 \in 1..NN(pre) /\ cfg.nodes[n0].kind = "slot" =>
+                LET sl == cfg.nodes[n0].slot
+                    idx == SlotIndexAt(sl, post.now)
+                    nst == Cardinality({a \in starts : post.steps[a].n = n0})
+                    carried == Cardinality({j \in DOMAIN pre.cu : pre.cu[j].loc = n0 /\ pre.cu[j].ss # NONE})
+                    waiting == Cardinality({j \in DOMAIN pre.cu : pre.cu[j].loc = n0 /\ pre.cu[j].ss = NONE})
+                IN idx # {} /\
+                   LET size == sl.sizes[SetMin(idx)]
+                   IN nst <= size
+                      /\ (~sl.cap => nst = Min2(size, waiting))
+                      /\ (sl.cap /\ sl.pre = 0 => nst = Min2(Max2(size - carried, 0), waiting)))
+
+----------------------------------------------------------------------------
 (* C05 work conservation *)
 
 HasServers(cfg, n) == cfg.nodes[n].kind \in {"std", "sched"}
@@ -371,11 +525,22 @@ F_C08_step(cfg, pre, post) ==
              IN nxt # {} /\ post.steps[SetMin(nxt)].k \in {"attach", "start"}
                 => post.steps[SetMin(nxt)].i = s.i)
        \cup Chk("C08.every-queue-start-was-chosen", \A a \in IdxOf(post, "attach") :
-             \* a server is attached only to the customer last returned by choose_next_customer at that node
-             \* (or to an interrupted customer being resumed: pre-emptive schedules are outside this property)
+             \* a server is attached only to the customer last returned by choose_next_customer at that node,
+             \* or to a customer whose priority just rose by a class change while waiting and who pre-empts
              LET s == post.steps[a]
                  prev == {b \in 1..(a-1) : post.steps[b].k = "choose" /\ post.steps[b].n = s.n}
-             IN prev # {} /\ post.steps[SetMax(prev)].i = s.i)
+                 byClassChange == post.ev.kind = "class_change"
+                                  /\ \E b \in 1..(a-1) : post.steps[b].k = "preempt" /\ post.steps[b].j = s.i
+             IN (prev # {} /\ post.steps[SetMax(prev)].i = s.i) \/ byClassChange)
+       \cup Chk("C08.class-change-preemptor-is-first", \A a \in IdxOf(post, "preempt") :
+             \* after the event nobody of higher, or equal priority and earlier arrival (FIFO), is left waiting
+             LET s == post.steps[a]
+             IN post.ev.kind = "class_change" /\ IsLive(post, s.j) =>
+                  \A j \in DOMAIN post.cu :
+                     LET w == post.cu[j]
+                         me == CuOf(post, s.j)
+                     IN w.loc = s.n /\ w.srv = 0 /\ w.id # s.i =>
+                          w.prio > me.prio \/ (w.prio = me.prio /\ cfg.nodes[s.n].disc # "FIFO"))
 
 ----------------------------------------------------------------------------
 (* C09 routing and class-change fidelity.  rt[k][n] = number of routing decisions already taken by *)
@@ -615,12 +780,13 @@ F_C14_final(cfg, last, outcome) ==
 
 StepFails(cfg, pre, post, rt) ==
     F_C01_step(cfg, pre, post) \cup F_C02_step(cfg, pre, post) \cup F_C03_step(cfg, pre, post)
+    \cup F_C04_step(cfg, pre, post) \cup F_C12_step(cfg, pre, post)
     \cup F_C05_step(cfg, pre, post) \cup F_C06_step(cfg, pre, post) \cup F_C07_step(cfg, pre, post)
     \cup F_C08_step(cfg, pre, post) \cup F_C09_step(cfg, pre, post, rt) \cup F_C10_step(cfg, pre, post)
     \cup F_C11_step(cfg, pre, post) \cup F_C13_step(cfg, pre, post) \cup F_C14_step(cfg, pre, post)
 
 InvFails(cfg, S) ==
-    F_C01_inv(cfg, S) \cup F_C03_inv(cfg, S) \cup F_C05_inv(cfg, S) \cup F_C06_inv(cfg, S)
+    F_C01_inv(cfg, S) \cup F_C03_inv(cfg, S) \cup F_C04_inv(cfg, S) \cup F_C12_inv(cfg, S) \cup F_C05_inv(cfg, S) \cup F_C06_inv(cfg, S)
     \cup F_C07_inv(cfg, S) \cup F_C09_inv(cfg, S) \cup F_C10_inv(cfg, S) \cup F_C11_inv(cfg, S)
     \cup F_C13_inv(cfg, S)
 
